@@ -276,6 +276,21 @@ impl<'g> FnCx<'g> {
                 }
             }
         }
+        // a one-expression getter used as a function value: `SourceMapSection::get_offset`
+        if p.path.segments.len() == 2 {
+            let key = format!("{}::{}", p.path.segments[0].ident, p.path.segments[1].ident);
+            if let Some((body, sty, _)) = self.g.getters.get(&key).cloned() {
+                self.scopes.push(HashMap::new());
+                let l = self.declare("self", sty.clone());
+                let b = self.expr(&body, None);
+                self.scopes.pop();
+                let b = b?;
+                if !b.steps.is_empty() {
+                    return unsupported("getter with a fallible body used as a function value", p.span());
+                }
+                return Ok(Val { steps: vec![], atom: format!("(fun {} => {})", l, paren(&b.atom)), prop: None, ty: Ty::Fun(vec![sty], Box::new(b.ty)) });
+            }
+        }
         // unit variants of the crate's Error
         if p.path.segments.len() == 2 && (p.path.segments[0].ident == "Error") {
             if let Some(c) = err_variant(&path_last(&p.path)) {
@@ -852,7 +867,7 @@ impl<'g> FnCx<'g> {
                     steps.extend(v.steps);
                     atoms.push(paren_atom(&v.atom));
                 }
-                return Ok(Val { steps, atom: format!("({} {})", lean, atoms.join(" ")), prop: None, ty: *rty });
+                return Ok(self.extern_result(steps, format!("({} {})", lean, atoms.join(" ")), *rty));
             }
         }
         // translated functions
@@ -895,6 +910,19 @@ impl<'g> FnCx<'g> {
     }
 
     /// call of a translated function or method (`args` include the receiver for methods)
+    /// the value of a call of an extern parameter: a `Result`-returning extern is run in the monad right away (like a
+    /// translated callee), any other is a pure term
+    fn extern_result(&mut self, mut steps: Vec<Step>, call: String, rty: Ty) -> Val {
+        match rty {
+            Ty::Res(inner) => {
+                let t = self.fresh_tmp();
+                steps.push(Step::BindOk(t.clone(), call));
+                Val { steps, atom: t, prop: None, ty: *inner }
+            }
+            other => Val { steps, atom: call, prop: None, ty: other },
+        }
+    }
+
     pub fn emit_call(&mut self, sig: &FnSig, args: &[&syn::Expr], sp: proc_macro2::Span) -> R<Val> {
         if sig.params.len() != args.len() {
             return unsupported("call arity", sp);
@@ -1501,6 +1529,62 @@ impl<'g> FnCx<'g> {
                 return self.emit_call(&sig, &args, m.span());
             }
         }
+        let tname = match &rty {
+            Ty::Struct(n) | Ty::Param(n) => Some(n.clone()),
+            _ => None,
+        };
+        // auto-deref: a method the struct does not have itself, but the field its `Deref` impl returns does
+        if let Ty::Struct(sn) = &rty {
+            if let Some(field) = self.g.derefs.get(sn).cloned() {
+                let fty = self.g.structs.get(sn).and_then(|fs| fs.iter().find(|(f, _)| *f == field).map(|(_, t)| t.clone()));
+                if let Some(Ty::Struct(inner)) = fty {
+                    let known = |k: &str| self.g.fns.contains_key(k) || self.g.getters.contains_key(k) || self.g.externs.iter().any(|(n, _, _)| n == k);
+                    if !known(&format!("{}::{}", sn, name)) && known(&format!("{}::{}", inner, name)) {
+                        let mut m2 = m.clone();
+                        m2.receiver = Box::new(syn::Expr::Field(syn::ExprField {
+                            attrs: vec![],
+                            base: m.receiver.clone(),
+                            dot_token: Default::default(),
+                            member: syn::Member::Named(syn::Ident::new(&field, m.span())),
+                        }));
+                        return self.method_expr(&m2, expect);
+                    }
+                }
+            }
+        }
+        if let Some(tn) = &tname {
+            let key = format!("{}::{}", tn, name);
+            if let Some((body, sty, _)) = self.g.getters.get(&key).cloned() {
+                if !m.args.is_empty() {
+                    return unsupported("getter call with arguments", m.span());
+                }
+                self.scopes.push(HashMap::new());
+                let l = self.declare("self", sty);
+                let b = self.expr(&body, expect);
+                self.scopes.pop();
+                let b = b?;
+                let mut steps = recv.steps.clone();
+                steps.push(Step::Let(l, recv.atom.clone()));
+                steps.extend(b.steps);
+                return Ok(Val { steps, atom: b.atom, prop: b.prop, ty: b.ty });
+            }
+            if let Some((_, lean, ty)) = self.g.externs.iter().find(|(n, _, _)| *n == key).cloned() {
+                if let Ty::Fun(atys, rty2) = ty {
+                    if atys.len() != m.args.len() + 1 {
+                        return unsupported("extern method arity", m.span());
+                    }
+                    let mut steps = recv.steps.clone();
+                    let mut atoms = vec![paren_atom(&recv.atom)];
+                    for (a, t) in m.args.iter().zip(atys.iter().skip(1)) {
+                        let v = self.expr(a, Some(t))?;
+                        self.u.unify(t, &v.ty)?;
+                        steps.extend(v.steps);
+                        atoms.push(paren_atom(&v.atom));
+                    }
+                    return Ok(self.extern_result(steps, format!("({} {})", lean, atoms.join(" ")), *rty2));
+                }
+            }
+        }
         let a = recv.atom.clone();
         let mut steps = recv.steps.clone();
         let nargs = m.args.len();
@@ -1552,7 +1636,7 @@ impl<'g> FnCx<'g> {
             }
             (Ty::Str, "into", 0) => pure(steps, a, Ty::Str),
             (Ty::Opt(t), "as_deref", 0) => pure(steps, a, Ty::opt((**t).clone())),
-            (Ty::Opt(t), "map", 1) if matches!(strip_paren(&m.args[0]), syn::Expr::Path(p) if path_text(&p.path) == "Into::into") => pure(steps, a, Ty::opt((**t).clone())),
+            (Ty::Opt(t), "map", 1) if matches!(strip_paren(&m.args[0]), syn::Expr::Path(p) if matches!(path_text(&p.path).as_str(), "Into::into" | "Box::as_ref" | "Box::as_mut" | "Arc::as_ref")) => pure(steps, a, Ty::opt((**t).clone())),
             (Ty::Opt(t), "and_then", 1) => {
                 // opt.and_then(|x| e) with a pure closure returning an Option
                 let cl = match strip_paren(&m.args[0]) {
@@ -1904,6 +1988,15 @@ impl<'g> FnCx<'g> {
                     ("Ok", Ty::Res2(t, _)) => Ok(format!(".ok {}", self.pattern(sub, &t)?)),
                     ("Err", Ty::Res2(_, e)) => Ok(format!(".error {}", self.pattern(sub, &e)?)),
                     ("Err", Ty::Res(_)) => Ok(format!(".error {}", self.pattern(sub, &Ty::Error)?)),
+                    // payload-carrying variants of translated enums
+                    (_, Ty::Struct(en)) if ts.path.segments.len() == 2 && ts.path.segments[0].ident == en.as_str() && self.g.enums.contains_key(&en) => {
+                        let tys = self.g.enums[&en].iter().find(|(n, _)| *n == name).map(|(_, t)| t.clone()).ok_or(format!("unsupported: variant {}::{}", en, name))?;
+                        if tys.len() != ts.elems.len() {
+                            return unsupported("variant pattern arity", p.span());
+                        }
+                        let parts = ts.elems.iter().zip(tys.iter()).map(|(s, t)| self.pattern(s, t)).collect::<R<Vec<_>>>()?;
+                        Ok(format!(".{} {}", sanitize(&name), parts.join(" ")))
+                    }
                     _ => unsupported("tuple-struct pattern", p.span()),
                 }
             }
